@@ -33,7 +33,7 @@ def run(chk):
     broken = chk.proof_obligations(["Corr/Serde.vo"])
     chk.coverage["rule"] = (
         "every byte-boundary truncation of encodings of boundary-biased values over serde-profile schemas (array sizes >= 1), "
-        "plus length prefixes overwritten with {len+1, 2^16, 2^31, 2^32-1} and single-byte corruptions; each decode outcome "
+        "plus messages ending in 1-3 optional fields after whole-byte fields cut at every byte, length prefixes overwritten with {len+1, 2^16, 2^31, 2^32-1} and single-byte corruptions; each decode outcome "
         "(value / overrun / bad ascii) is compared with the Coq model and the truncations must raise; "
         "non-trivial = truncation point strictly inside the encoding; distinct = (schema, struct, bytes)")
     cases, meta, fails = [], [], []
@@ -89,6 +89,25 @@ def run(chk):
                 c[chk.rng.randrange(len(c))] = chk.rng.randrange(256)
                 dec(text, fcp, sterm, s.name, c, "corruption", False, v)
                 chk.count((text, s.name, tuple(c)), sample=None)
+    # messages whose last fields are optional (the shape a schema takes when fields are appended over time), everything before them in
+    # whole bytes: cutting the encoding exactly where an optional's flag byte should start leaves a byte string that announces nothing
+    # about that field, and it must be rejected like any other truncation
+    for q in range(12 if quick else 150):
+        nlead = chk.rng.randint(0, 3)
+        lead = [chk.rng.choice(["u8", "u16", "i32", "str", "[u8, 2]", "f32", "[u16]"]) for _ in range(nlead)]
+        tail = [f"Optional[{chk.rng.choice(['u8', 'u16', 'str', 'i64', '[u8]', 'f64'])}]" for _ in range(chk.rng.randint(1, 3))]
+        ev_text = 'version: "3"\nstruct Ev { ' + " ".join(f"f{j} @{j}: {t}," for j, t in enumerate(lead + tail)) + " }\n"
+        ev = serde_run.parse(ev_text).unwrap()
+        ev_term = to_coq.schema(ev)
+        for _ in range(3):
+            v = to_coq.gen_struct_value(chk.rng, ev, "Ev")
+            b, _e = serde_run.real_encode(ev, "Ev", v)
+            if b is None:
+                fails.append({"kind": "encode-raised", "schema": ev_text, "struct": "Ev", "value": v, "error": repr(_e)})
+                continue
+            for k in range(len(b)):
+                dec(ev_text, ev, ev_term, "Ev", b[:k], "truncation", True, v)
+                chk.count((ev_text, "Ev", tuple(b[:k])), nontrivial=k > 0, sample={"schema": ev_text, "struct": "Ev", "bytes": b[:k], "of": len(b)})
     # length prefixes announcing more than there is: first field (lowest id) is a string / dynamic array
     huge_text = 'version: "3"\nstruct P { s @0: str, n @1: u8, }\nstruct Q { a @0: [u16], n @1: u8, }\nstruct R { n @0: u3, a @1: [Optional[u8]], }\n'
     fcp = serde_run.parse(huge_text).unwrap()
